@@ -59,6 +59,9 @@ def main():
                 if spec.get('pl_warmup'):
                     # the same ParameterList object has been used for another batch before (other model class, repetitions of its own)
                     batching.batch_run(bm.WarmModel, pl, repetitions=spec['pl_warmup'], processes=1)
+                if spec.get('pl_searched') and len(pl.build()) > 0:
+                    # the same ParameterList object was tuned with grid_search first (one process: scores are written into what was built)
+                    batching.grid_search(bm.WarmModel, pl, bm.zero_score, processes=1, repetitions=1)
                 if spec.get('pl_history'):
                     # the same ParameterList object was used before with one more parameter, which has been removed since
                     pl.add_parameter('zeta', [1, 2, 3])
